@@ -192,9 +192,9 @@ def scenario(e3, shape, name, known):
 SCEN_QUICK = [
     ([("push", 1), ("clear",)], "c05_push_clear", ["K3"]),
     ([("push", 2), ("data",)], "c05_push2_data", []),
-    ([("push", 1), ("push", 1)], "c05_push_push", []),
 ]
 SCEN_THOROUGH = [
+    ([("push", 1), ("push", 1)], "c05_push_push", []),
     ([("push", 3), ("clear",)], "c05_push3_clear", ["K3", "K4"]),
     ([("push", 3), ("data",)], "c05_push3_data", ["K4"]),
     ([("push", 1), ("push", 1), ("clear",)], "c05_push_push_clear", ["K3"]),
